@@ -2,7 +2,7 @@
 """Store a validated seeded change under /verif/seeded/<name>/ (patch.diff, demo, notes, meta.json)."""
 import json, os, shutil, sys
 pid, name = sys.argv[1], sys.argv[2]
-src = f'/tmp/seeds/{sys.argv[3] if len(sys.argv) > 3 else pid}'
+src = os.environ.get('SEEDROOT', '/tmp/seeds') + f'/{sys.argv[3] if len(sys.argv) > 3 else pid}'
 dst = f'/verif/seeded/{name}'
 os.makedirs(dst, exist_ok=True)
 for f in ('patch.diff', 'demo_test.py', 'notes.md'):
